@@ -62,7 +62,7 @@ def space_pair(ctx, name, ts, mu, Ne, method, eps, cache_inside):
     sig = f"{PID}/{method}"
     if method == "maximization":
         ties = bp.check_real_maximization(ctx, PID, name, ts, f_log, eps, mu, bp.LOG, inst, report=False)
-        if ties is None or ties > 0:
+        if ties is not None and ties > 0:      # (None: the rule itself is broken -- C13's business; compare anyway)
             ctx.count("guard_skipped_pairs_argmax_tie")
             return
         a, b = np.asarray(f_lin.posterior_mean), np.asarray(f_log.posterior_mean)
